@@ -19,6 +19,14 @@ Proved here for all inputs:
 * `alloc_dup_same_pack_twice`, `alloc_dup_same_track_twice` the excluded points of `alloc_nodup`;
 * `accept_iff_unique`         accepted ⇔ exactly one `≈`-class of valid allocations,
                               Conflicting ⇔ none, Ambiguous ⇔ at least two inequivalent ones.
+
+Where the hypothesis `WF` comes from for the problems that item selection builds (`_PackAllocator`):
+derived in `Props/C06.lean` — `Earverif.Adm.allocWF0_of_multitree` (from `multitreeOK`, the success condition
+of `_validate_pack_channel_multitree`: `cf_nodup`; `packs_nodup`/`tracks_nodup` by construction) and
+`allocWF_of_multitree` (adds `wrappedNonempty` for `WF.nonempty`, which `validate_structure` does NOT
+establish); over C14's validation model in `Proofs/C14Alloc.lean` (`Validate.allocProblem_wf`,
+`allocProblem_wf_dropEmpty`).  Packs without channels are never allocated
+(`Proofs/C14Empty.lean: selectPackMapping_dropEmpty`), so both apply the theorems below to `dropEmpty prob`.
 -/
 import Earverif.Model.PackAlloc
 import Earverif.Proofs.C07Sound
